@@ -1,5 +1,6 @@
 import ParryModel.C05.Model
 import ParryModel.C04.Model
+import ParryModel.C14.Model
 /-!
 # C20 model: corrected behaviour for the definedness defects found by C20 (`fixes/C20-*.diff`)
 
@@ -218,5 +219,29 @@ def segDirection2 (a b : V2 K) : Option (V2 K) :=
   let v := b.sub a
   let sqn := v.normSq
   if segEps * segEps < sqn then some (v.sdiv (Num.sqrt sqn)) else none
+
+/-! ## `PolygonalFeature::{face_face_contacts, face_vertex_contacts}` (2-D, `src/shape/polygonal_feature2d.rs`)
+
+The contact points that `contact_manifold_pfm_pfm` (2-D) pushes for a pair of support features; feature ids are not modelled.
+Tied bit for bit by the `pff2` / `pfv2` cases of C20's own stream. -/
+
+/-- `face_face_contacts(pos12, face1, normal1, face2, manifold, flipped)`: the two clip points, each with the distance of its
+own pair along `normal1`; nothing when the projections do not overlap. -/
+def faceFaceContacts2 (pos12 : Iso2 K) (a1 b1 a2 b2 n1 : V2 K) (flipped : Bool) : List (C14.Contact2 K) :=
+  match C14.clipSegSegWithNormal a1 b1 (pos12.act a2) (pos12.act b2) n1 with
+  | none => []
+  | some (ca, cb) =>
+    [C14.Contact2.flipped ca.p1 (pos12.invAct ca.p2) ((ca.p2.sub ca.p1).dot n1) flipped,
+     C14.Contact2.flipped cb.p1 (pos12.invAct cb.p2) ((cb.p2.sub cb.p1).dot n1) flipped]
+
+/-- `face_vertex_contacts(pos12, face1, sep_axis1, vertex2, manifold, flipped)`: the vertex is moved back along `sep_axis1`…
+in fact along the face normal, by `dist = (a1 − v)·n / −(n·sep_axis1)` — an unguarded division. -/
+def faceVertexContacts2 (pos12 : Iso2 K) (a1 b1 v2 sep : V2 K) (flipped : Bool) : C14.Contact2 K :=
+  let v21 := pos12.act v2
+  let t := b1.sub a1
+  let n : V2 K := ⟨-t.y, t.x⟩
+  let denom := -(n.dot sep)
+  let dist := (a1.sub v21).dot n / denom
+  C14.Contact2.flipped (v21.sub (n.smul dist)) (pos12.invAct v21) dist flipped
 
 end Model
